@@ -69,6 +69,8 @@ type End struct {
 	writes     int
 	fault      *Fault
 	faultFired bool
+	faultGID   int64
+	faultWrite bool
 	peer       *End
 	// OnIO, if set, is called (outside locks) at the start of every Read/Write with the call index.
 	OnIO func(idx int, isWrite bool)
@@ -87,8 +89,15 @@ func (e *End) IOs() int          { e.mu.Lock(); defer e.mu.Unlock(); return e.io
 func (e *End) Failed() bool      { e.mu.Lock(); defer e.mu.Unlock(); return e.failed }
 func (e *End) SetFault(f *Fault) { e.mu.Lock(); e.fault = f; e.mu.Unlock() }
 func (e *End) FaultFired() bool  { e.mu.Lock(); defer e.mu.Unlock(); return e.faultFired }
-func (e *End) Out() *half        { return e.out }
-func (e *End) In() *half         { return e.in }
+
+// FaultSite reports the goroutine whose I/O call received the fault and whether it was a write.
+func (e *End) FaultSite() (gid int64, isWrite bool) {
+	e.mu.Lock()
+	defer e.mu.Unlock()
+	return e.faultGID, e.faultWrite
+}
+func (e *End) Out() *half { return e.out }
+func (e *End) In() *half  { return e.in }
 
 func (h *half) tick() int64 { return atomic.AddInt64(h.clock, 1) }
 
@@ -106,6 +115,8 @@ func (e *End) ioStart(isWrite bool) *Fault {
 	if e.fault != nil && !e.faultFired && idx == e.fault.K {
 		f = e.fault
 		e.faultFired = true
+		e.faultGID = GoID()
+		e.faultWrite = isWrite
 	}
 	cb := e.OnIO
 	e.mu.Unlock()
@@ -120,7 +131,7 @@ func (e *End) Write(p []byte) (int, error) {
 	if f != nil {
 		switch f.Kind {
 		case "local_close":
-			_ = e.Close()
+			e.shut(ErrSimClosed) // someone else closed the transport locally (not counted as the library's Close)
 		case "peer_close":
 			e.peer.Fail(false)
 		case "write_err", "read_err", "read_err_data":
@@ -179,7 +190,7 @@ func (e *End) Read(p []byte) (int, error) {
 	if f != nil {
 		switch f.Kind {
 		case "local_close":
-			_ = e.Close()
+			e.shut(ErrSimClosed) // someone else closed the transport locally (not counted as the library's Close)
 		case "peer_close":
 			e.peer.Fail(false)
 		case "read_err", "write_err":
